@@ -305,7 +305,7 @@ def spec_bi_split(env):
     return k - b if k >= b else None
 
 
-@rule("C04.1d", ["C04", "C10"], "split_byte_interval / join_byte_intervals move interval-keyed entries with the right boundary", 2)
+@rule("C04.1d", ["C04", "C10", "C02"], "split_byte_interval / join_byte_intervals move interval-keyed entries with the right boundary", 2)
 def c04_1d(ctx: Ctx):
     repo = ctx.repo
     fi = repo.func("intervalutils.split_byte_interval")
